@@ -9,6 +9,7 @@ import (
 
 	"github.com/protobom/protobom/pkg/formats"
 	"github.com/protobom/protobom/pkg/sbom"
+	"google.golang.org/protobuf/types/known/timestamppb"
 
 	"mcverif/engine"
 	"mcverif/gen"
@@ -227,7 +228,7 @@ func docTypes(d *sbom.Document) string {
 		if dt.Type != nil {
 			l = append(l, dt.Type.String())
 		} else {
-			l = append(l, "name:"+dt.GetName())
+			l = append(l, "name:"+dt.GetName()+"/"+dt.GetDescription())
 		}
 	}
 	sort.Strings(l)
@@ -282,6 +283,95 @@ func Run(c *engine.Ctx) {
 	enums(c)
 	attributes(c)
 	docName(c)
+	lifecycleLists(c)
+	zones(c)
+}
+
+// lifecycleLists: every sequence of <=3 lifecycle entries over a menu mixing predefined phases and
+// custom (name/description) entries - list elements of different kinds next to each other.
+func lifecycleLists(c *engine.Ctx) {
+	c.Group("lifecycle-lists")
+	s := func(v string) *string { return &v }
+	menu := []func() *sbom.DocumentType{
+		func() *sbom.DocumentType { return &sbom.DocumentType{Type: sbom.DocumentType_BUILD.Enum()} },
+		func() *sbom.DocumentType { return &sbom.DocumentType{Type: sbom.DocumentType_DESIGN.Enum()} },
+		func() *sbom.DocumentType { return &sbom.DocumentType{Type: sbom.DocumentType_DEPLOYED.Enum()} },
+		func() *sbom.DocumentType { return &sbom.DocumentType{Name: s("custom-one"), Description: s("first custom phase")} },
+		func() *sbom.DocumentType { return &sbom.DocumentType{Name: s("custom-two")} },
+	}
+	labels := []string{"BUILD", "DESIGN", "DEPLOYED", "custom(name,desc)", "custom(name)"}
+	c.Bound("lifecycle-lists", fmt.Sprintf("every sequence of 1..3 entries over %v x {1.4, 1.5}", labels))
+	var rec func(cur []int)
+	rec = func(cur []int) {
+		if len(cur) > 0 {
+			sel := append([]int{}, cur...)
+			for _, f := range versions {
+				f := f
+				c.Case(func() any {
+					var l []string
+					for _, i := range sel {
+						l = append(l, labels[i])
+					}
+					return map[string]any{"lifecycles": l, "format": string(f)}
+				}, func(t *engine.T) *engine.Violation {
+					d := docOf(two())
+					for _, i := range sel {
+						d.Metadata.DocumentTypes = append(d.Metadata.DocumentTypes, menu[i]())
+					}
+					if v := RoundTrip(t, d, f); v != nil {
+						return v
+					}
+					t.State(fmt.Sprint("lifecycles", sel, f))
+					t.Outcome("lifecycle-list-ok")
+					return nil
+				})
+			}
+		}
+		if len(cur) == 3 {
+			return
+		}
+		for i := range menu {
+			rec(append(cur, i))
+		}
+	}
+	rec(nil)
+}
+
+// zones: the process-local time zone is an environment answer (see gen.Zones).
+func zones(c *engine.Ctx) {
+	c.Group("environment-timezone")
+	m := menu()
+	zs := gen.Zones()
+	c.Bound("environment-timezone", fmt.Sprintf("%d local zones x %d single deviations (+ document date) x {1.4, 1.5}", len(zs), len(m)))
+	for _, z := range zs {
+		for i := -1; i < len(m); i++ {
+			for _, f := range versions {
+				z, i, f := z, i, f
+				name := "document-date"
+				if i >= 0 {
+					name = m[i].Name
+				}
+				c.Case(func() any { return map[string]string{"zone": z.String(), "deviation": name, "format": string(f)} }, func(t *engine.T) *engine.Violation {
+					nl := two()
+					d := docOf(nl)
+					if i >= 0 {
+						m[i].Do(nl.Nodes[0], nl.Nodes[1])
+					} else {
+						d.Metadata.Date = timestamppb.New(time.Unix(1700000000, 0))
+					}
+					var v *engine.Violation
+					gen.InZone(z, func() { v = RoundTrip(t, d, f) })
+					if v != nil {
+						v.Detail = "under local zone " + z.String() + ": " + v.Detail
+						return v
+					}
+					t.State("zone:" + z.String() + name + string(f))
+					t.Outcome("zone-ok")
+					return nil
+				})
+			}
+		}
+	}
 }
 
 // trees --------------------------------------------------------------------
